@@ -258,6 +258,9 @@ inputs:
   - jsonschema:
       path: '%(verif)s/corpus/c09/widgets.json'
       package: widgets
+  - jsonschema:
+      path: '%(verif)s/corpus/c13/shapes.json'
+      package: shapes
   - cue:
       entrypoint: '%(repo)s/testdata/schemas/validation'
   - cue:
@@ -299,7 +302,8 @@ def _gen_run(ctx, name, pkg, files, entries, **kw):
 
 def _c08_runs(ctx):
     return [_gen_run(ctx, "constraints", "constraints", [("constraints/zz_verif_c08.go", "harness/gen/constraints/zz_verif_c08.go")], ["VerifC08Validate"]),
-            _gen_run(ctx, "validation", "validation", [("validation/zz_verif_c08.go", "harness/gen/validation/zz_verif_c08.go")], ["VerifC08ValidateDashboard"])]
+            _gen_run(ctx, "validation", "validation", [("validation/zz_verif_c08.go", "harness/gen/validation/zz_verif_c08.go")], ["VerifC08ValidateDashboard"]),
+            _gen_run(ctx, "shapes", "shapes", [("shapes/zz_verif_c08.go", "harness/gen/shapes/zz_verif_c08.go")], ["VerifC08ValidateShapes"])]
 
 PROPERTIES["C08"] = {
     "level_text": "Two-stage, bounded symbolic execution + SMT. Stage 1 (concrete): cog's CLI is built from /repo's current tree and the REAL generator emits Go types for the corpus. "
@@ -323,7 +327,7 @@ def _c13_prepare(tmp, tier):
     os.makedirs(hdir, exist_ok=True)
     lst = os.path.join(tmp, "c13_entries.txt")
     subprocess.run([os.path.join(drv.BUILD, "symgo"), "-dir", ctx["gen"], "-gen-equals", hdir, "-gen-list", lst, "-modpath", "verifgen",
-                    "-pkgs", "./equality,./constraints,./validation,./defaults,./widgets"], check=True, env=drv.ENV)
+                    "-pkgs", "./equality,./constraints,./validation,./defaults,./widgets,./shapes"], check=True, env=drv.ENV)
     ctx["c13h"] = hdir
     ctx["c13"] = {}
     for l in open(lst):
